@@ -33,7 +33,7 @@ ID = "C19"
 LEAN_TARGETS = ["RV.C19.Props", "RV.C19.Audit"]
 AUDIT = "RV/C19/Audit.lean"
 DRIVER = "drv_c19"
-CASES = {"quick": 1400, "thorough": 60000, "search": 20000}
+CASES = {"quick": 1400, "thorough": 40000, "search": 20000}
 RULE = ("histories (1-12 ops) of append / += / item assignment / item deletion / clear on Collection(g, head) from "
         "start lengths 0-5 built by the constructor or from hand-written triples, members from a falsy-aware vocabulary "
         "with duplicates, indices in [-(n+2), n+1], full read snapshot + footprint after every op; plus broken/cyclic "
@@ -60,7 +60,7 @@ def _terms(head_kind):
     t = {FIRST: RDF.first, REST: RDF.rest, NIL: RDF.nil}
     t.update(MEMBERS)
     t.update(OTHER)
-    for i in range(HEAD, HEAD + 12):
+    for i in range(HEAD, HEAD + 64):
         t[i] = BNode(f"c{i}")
     if head_kind == "u":
         t[HEAD] = URIRef("http://e/list")
@@ -519,12 +519,15 @@ def shrink(case):
             yield {**case, "triples": ts[:i] + ts[i + 1:]}
         return
     ops, items = case["ops"], case["init"]["items"]
-    for i in range(len(ops) - 1, -1, -1):
-        yield {**case, "ops": ops[:i] + ops[i + 1:]}
     if len(ops) > 1:            # fold the first operation into the start list
         l, ok = _apply(list(items), ops[0])
-        if ok:
+        if ok and len(l) < 60:
             yield {**case, "init": {**case["init"], "items": l}, "ops": ops[1:]}
+    for i in range(len(ops) - 1, -1, -1):
+        yield {**case, "ops": ops[:i] + ops[i + 1:]}
+    if len(ops) == 1 and ops[0][0] in ("set", "del") and ops[0][1] >= 1 and items:
+        # shorter start list, same relative position of the index
+        yield {**case, "init": {**case["init"], "items": items[1:]}, "ops": [[ops[0][0], ops[0][1] - 1] + ops[0][2:]]}
     for i in range(len(items)):
         yield {**case, "init": {**case["init"], "items": items[:i] + items[i + 1:]}}
     if case["extra"]:
@@ -568,15 +571,19 @@ def _apply(l, op):
 
 
 def _m_set_at_len(case, result):
-    """C19-K1: the single operation `c[len(c)] = x` is accepted (writes an rdf:first onto rdf:nil / the
-    empty head) where the list raises IndexError; everything reported is at or after that operation."""
-    if case.get("kind") != "hist" or len(case["ops"]) != 1:
+    """C19-K1: the LAST operation of the history is `c[len(c)] = x` (index = the list's length at that moment),
+    the collection accepts it where the list raises IndexError, and nothing is reported before that operation
+    (what is reported after it are the consequences of the rdf:first written onto rdf:nil / the empty head)."""
+    if case.get("kind") != "hist" or not case["ops"]:
         return False
-    op = case["ops"][0]
+    l = list(case["init"]["items"])
+    for op in case["ops"][:-1]:
+        l, _ = _apply(l, op)
+    j, op = len(case["ops"]) - 1, case["ops"][-1]
     v = result["viol"]
-    return (op[0] == "set" and op[1] == len(case["init"]["items"]) and bool(v)
+    return (op[0] == "set" and op[1] == len(l) and bool(v)
             and v[0].startswith("setitem:") and "the collection gives ok, the list IndexError" in v[0]
-            and all("op 0 " in x for x in v))
+            and all(f"op {j} " in x for x in v))
 
 
 MATCHERS = {"set_at_len": _m_set_at_len}
